@@ -7,7 +7,7 @@
    conjunction of the open findings; the older region theorems (C05_partial_primary_json, _class, _secondary, …) are
    kept as corollary-style statements with explicit hypotheses.  The decode layer (json.loads, cattrs) is abstract:
    C05_partial_decode.  The converse (guard exactness) does not hold: C05_guard_not_exact. *)
-From PG Require Import Lib.Strs Model.Dispatch Model.Response Proofs.Response Proofs.ResponseMain.
+From PG Require Import Lib.Strs Model.Dispatch Model.Response Proofs.Response Proofs.ResponseMain Proofs.ResponseHeur.
 
 (* THE single statement.  For every well-formed case — module (list of operations of any shape), operation, declared 2xx
    response (numeric or the "2XX" range) and one of its content entries (or none) — : if the executable guard holds (the
@@ -45,6 +45,22 @@ Theorem C05_class_type_ok : forall reg n,
   heuristic_ok reg (TClass n) = true /\ deser_direct reg (TClass n) = true.
 Proof. exact class_type_ok. Qed.
 Print Assumptions C05_class_type_ok.
+
+(* the same for `List[C]` and `C | None`: the string heuristic agrees with the need for structuring and the rendered
+   call targets the declared type, for every identifier-like class name C (no per-case computation) *)
+Theorem C05_list_class_type_ok : forall reg n,
+  class_name_ok n = true -> class_entry_ok reg n = true -> alookup s_List reg = None ->
+  heuristic_ok reg (TList (TClass n)) = true /\ deser_direct reg (TList (TClass n)) = true.
+Proof. exact list_class_type_ok. Qed.
+Print Assumptions C05_list_class_type_ok.
+Theorem C05_opt_class_type_ok : forall reg n,
+  class_name_ok n = true -> reg_keys_ident reg = true ->
+  heuristic_ok reg (TOpt (TClass n)) = true /\ deser_direct reg (TOpt (TClass n)) = true.
+Proof. exact opt_class_type_ok. Qed.
+Print Assumptions C05_opt_class_type_ok.
+(* NOT proved in general (evaluated per case by vm_compute in every correspondence run): alias types
+   (TAliasArr / TAliasPrim: need a consistency hypothesis between the registry's items info and the AST),
+   `List[C] | None`, nested lists and dict[str, C]. *)
 
 Theorem C05_partial_class : forall reg o r n e ct cn,
   cprocessed o = Some (r, n) -> cr_content r = [e] -> is_stream r = false -> json_like (c_media e) = true ->
